@@ -7,6 +7,9 @@ for l in open(os.path.join(V, "seeded", "CONFIRMED.txt")):
     if l.startswith("C"):
         conf[l.split()[0]] = l.strip()
 HAND = {
+ "C06-c-regress-processing-after-close": dict(change="reverse of fix cc7063f: XmppSocket::processData() goes on dispatching the elements of a read after a handler has closed the stream",
+     needs="a server that sends <success/> without (or with a wrong) server signature and the following stream features in the same packet (SASL2 has no stream restart in between)",
+     also=[]),
  "C02-c-regress-uninit-enum": dict(change="reverse of fix 0499544: QXmppDiscoveryIqPrivate::queryType is left uninitialised by the default constructor again",
      needs="a discovery IQ that is built with the default constructor and serialized without setQueryType(); the stale value must differ from InfoQuery to change behaviour, and only a valgrind/UBSan run sees the read itself",
      also=["C01"]),
